@@ -17,13 +17,14 @@ func init() {
 		fs := flag.NewFlagSet("cose-replay", flag.ExitOnError)
 		in := fs.String("in", "", "behaviours JSON (list)")
 		out := fs.String("out", "", "report JSON")
+		opts := fs.String("opts", "", "signer-options combinations JSON (list; Cose.tla SignOpts with the allowed outcomes)")
 		workers := fs.Int("workers", runtime.NumCPU(), "parallel configurations")
 		_ = fs.Parse(args)
 		seed, _ := strconv.ParseInt(os.Getenv("VERIF_SEED"), 10, 64)
 		if seed == 0 {
 			seed = 1
 		}
-		if err := cosex.Run(*in, *out, seed, os.Getenv("VERIF_TIER") == "thorough", *workers); err != nil {
+		if err := cosex.Run(*in, *opts, *out, seed, os.Getenv("VERIF_TIER") == "thorough", *workers); err != nil {
 			fmt.Fprintln(os.Stderr, err)
 			return 2
 		}
